@@ -102,6 +102,18 @@ def oracle_model(case):
                     if not np.array_equal(P3, P0):
                         raise Violation(f"{label}: {bad} in the masked features {masked} changes predict_proba (assume_finite=True): "
                                         f"the masked columns are read")
+        n_leaves = (n_cuts + 1) ** len(used)
+        if n_leaves >= 64:
+            # many leaves x many query rows (a membership matrix beyond 2^20 entries): still one probability vector per sample,
+            # the same as when the sample is predicted alone
+            m_big = 2 ** 20 // n_leaves + 37
+            Qb = rs.randn(m_big, d) * 4
+            Pb = est.predict_proba(Qb)
+            if Pb.shape != (m_big, case["K"]) or not np.all(np.isfinite(Pb)) or np.max(np.abs(Pb.sum(1) - 1)) > 1e-9:
+                raise Violation(f"{label}: predict_proba of {m_big} rows ({n_leaves} leaves) does not return one probability vector per sample")
+            tail = est.predict_proba(Qb[-40:])
+            if np.max(np.abs(tail - Pb[-40:])) > 1e-10:
+                raise Violation(f"{label}: the last rows of a query of {m_big} rows ({n_leaves} leaves) are predicted differently alone")
         # soft memberships at the model's own temperature and at others
         for T in (case["temperature"], 1e-4, 10.0):
             est.temperature = T
